@@ -267,7 +267,11 @@ impl SaveDirState {
                 if path.is_empty() {
                     path = args.next().map(|s| s.as_str()).unwrap_or_default();
                 }
-                out.write_all(b"-o $OUT")?;
+                if is_rsp_file {
+                    out.write_all(b"-o $OUT")?;
+                } else {
+                    out.write_all(b"-o \"$OUT\"")?;
+                }
                 *original_output_file = Some(path.to_owned());
             } else if let Some(mut dir) = arg.strip_prefix("-L") {
                 if dir.is_empty() {
@@ -276,7 +280,7 @@ impl SaveDirState {
 
                 let dir = std::path::absolute(dir)?;
                 out.write_all(b"-L")?;
-                write_copied_file_arg(out, &dir)?;
+                write_copied_file_arg(out, &dir, is_rsp_file)?;
             } else {
                 // If the arg contains '=', then check to see if what's after the '=' is a filename
                 // that exists. If it does, use that.
@@ -294,18 +298,9 @@ impl SaveDirState {
 
                 let path = std::path::absolute(maybe_path)?;
                 if self.output_path(&path).exists() {
-                    write_copied_file_arg(out, &path)?;
-                } else if is_rsp_file {
-                    // At-file content is consumed directly by the linker, not by a shell, so no
-                    // shell escaping is needed.
-                    out.write_all(maybe_path.as_bytes())?;
+                    write_copied_file_arg(out, &path, is_rsp_file)?;
                 } else {
-                    for b in maybe_path.bytes() {
-                        if b" $\\".contains(&b) {
-                            out.write_all(b"\\")?;
-                        }
-                        out.write_all(&[b])?;
-                    }
+                    write_escaped(out, maybe_path.as_bytes(), is_rsp_file)?;
                 }
             }
         }
@@ -588,9 +583,41 @@ fn write_arg_separator(out: &mut dyn Write, is_at_file: bool) -> Result {
     Ok(())
 }
 
-fn write_copied_file_arg(out: &mut dyn Write, path: &Path) -> Result {
-    out.write_all(b"$D/")?;
-    out.write_all(to_output_relative_path(path).as_os_str().as_encoded_bytes())?;
+fn write_copied_file_arg(out: &mut dyn Write, path: &Path, is_rsp_file: bool) -> Result {
+    if is_rsp_file {
+        out.write_all(b"$D/")?;
+    } else {
+        out.write_all(b"\"$D\"/")?;
+    }
+    write_escaped(
+        out,
+        to_output_relative_path(path).as_os_str().as_encoded_bytes(),
+        is_rsp_file,
+    )
+}
+
+/// Writes `bytes` as (part of) a single word. The run-with script is read by a shell, so every
+/// character that's special to the shell needs escaping. At-files are read by our own
+/// response-file parser, which only treats whitespace, quotes and backslashes specially.
+fn write_escaped(out: &mut dyn Write, bytes: &[u8], is_rsp_file: bool) -> Result {
+    const SHELL_SPECIAL: &[u8] = b" \t$\\'\"`;&|()<>{}*?[]#~!";
+    const RSP_SPECIAL: &[u8] = b" \t\n\r\\'\"";
+    for &b in bytes {
+        if is_rsp_file {
+            if RSP_SPECIAL.contains(&b) {
+                out.write_all(b"\\")?;
+            }
+            out.write_all(&[b])?;
+        } else if b == b'\n' {
+            // A backslash followed by a newline would be a line continuation.
+            out.write_all(b"$'\\n'")?;
+        } else {
+            if SHELL_SPECIAL.contains(&b) {
+                out.write_all(b"\\")?;
+            }
+            out.write_all(&[b])?;
+        }
+    }
     Ok(())
 }
 
